@@ -13,9 +13,6 @@
     parameters of the event: `excM i = (match on the event bytes, match on the source name)` and
     `ruleM i`; which of the two exception results is used (`CheckSourceName`) is the model's job.
   * event time (`timeEvent.UnixNano()`) is an input; there is no clock in this code.
-  * `n`, `pre` of a source are history variables (never read by the modelled code): the number of
-    `counter.Inc()` executed for the source since the last maintenance round, and whether the
-    source was banned (counter ≥ its threshold) when the last maintenance round reached it.
   Metrics and log lines are not modelled.
 -/
 import FileD.Prelude.Bytes
@@ -47,8 +44,6 @@ structure Src where
   counter : Int
   ts      : Int
   thr     : Int        -- a.sourcesThresholds[id]
-  n       : Int        -- history: Inc()s since the last maintenance round
-  pre     : Bool       -- history: banned when the last maintenance round reached it
 deriving Repr, DecidableEq
 
 structure State where
@@ -78,28 +73,35 @@ def ruleVerdict : List Int → List Bool → Int → Verdict
     else ruleVerdict ts ms d
   | _, _, d => .count d
 
-/-- everything of `IsSpam` up to `a.mu.RLock()` -/
-def verdict (cfg : Cfg) (e : Ev) : Verdict :=
-  if cfg.rulesNil && cfg.threshold == -1 then .pass else
-  let v := if cfg.rulesNil then (if excHit cfg.excs e.excM then .pass else .count cfg.threshold)
-           else ruleVerdict cfg.rules e.ruleM cfg.threshold
-  match v with
+/-- exceptions (when `a.rules == nil`) or rules: the threshold to go on with, or an early return -/
+def preVerdict (cfg : Cfg) (e : Ev) : Verdict :=
+  if cfg.rulesNil then (if excHit cfg.excs e.excM then .pass else .count cfg.threshold)
+  else ruleVerdict cfg.rules e.ruleM cfg.threshold
+
+/-- `switch threshold { case thresholdUnlimited: return false; case thresholdBlocked: return true }` -/
+def finalSwitch : Verdict → Verdict
   | .count t => if t = -1 then .pass else if t = 0 then .block else .count t
   | v => v
 
-/-- the counter part of `IsSpam` for one source; `none` = the id is not in `a.sources` -/
-def hit (cfg : Cfg) (T : Int) (e : Ev) (old : Option Src) : Bool × Src :=
-  let src : Src := match old with
-    | some s => s
-    | none => { counter := 0, ts := e.time, thr := T, n := 0, pre := false }
+/-- everything of `IsSpam` up to `a.mu.RLock()` -/
+def verdict (cfg : Cfg) (e : Ev) : Verdict :=
+  if cfg.rulesNil && cfg.threshold == -1 then .pass else finalSwitch (preVerdict cfg e)
+
+/-- the source entry `IsSpam` creates when the id is not in `a.sources` -/
+def fresh (T : Int) (e : Ev) : Src := { counter := 0, ts := e.time, thr := T }
+
+/-- the counter part of `IsSpam` once the source entry `src` is at hand -/
+def hitSrc (cfg : Cfg) (T : Int) (e : Ev) (src : Src) : Bool × Src :=
   if e.isNew then (false, { src with counter := 0 })
   else
     let diff := wrap64 (e.time - src.ts)
-    let counted : Bool := decide (diff < cfg.interval)
-    let x := if counted then wrap32 (src.counter + 1) else src.counter
+    let x := if diff < cfg.interval then wrap32 (src.counter + 1) else src.counter
     let c := if x = wrap32 T then wrap32 (cfg.unban * T) else x
-    (decide (x ≥ wrap32 T),
-     { src with counter := c, ts := e.time, n := if counted then src.n + 1 else src.n })
+    (decide (x ≥ wrap32 T), { src with counter := c, ts := e.time })
+
+/-- the counter part of `IsSpam` for one source; `none` = the id is not in `a.sources` -/
+def hit (cfg : Cfg) (T : Int) (e : Ev) (old : Option Src) : Bool × Src :=
+  hitSrc cfg T e (match old with | some s => s | none => fresh T e)
 
 def isSpam (cfg : Cfg) (st : State) (e : Ev) : Bool × State :=
   match verdict cfg e with
@@ -113,7 +115,7 @@ def maintSrc (unban : Int) (s : Src) : Option Src :=
   let x1 := s.counter - s.thr
   let x2 := if x1 < 0 then 0 else x1
   let x3 := if x2 > unban * s.thr then unban * s.thr else x2
-  some { s with counter := wrap32 x3, n := 0, pre := decide (s.counter ≥ s.thr) }
+  some { s with counter := wrap32 x3 }
 
 def maintenance (cfg : Cfg) (st : State) : State :=
   ⟨fun k => (st.m k).bind (maintSrc cfg.unban), st.keys⟩
